@@ -76,10 +76,10 @@ theorem parseDescription_vinv (s s' : PS) (a : Ast) (hg : VPS body s)
     have hg1 := advance_vinv body cfg s _ u h1 hg
     simp only [Bool.or_eq_true, beq_iff_eq] at hk
     rcases hk with hk | hk
-    · obtain ⟨sv, hsv, hch⟩ := hg.1.2.2.2.1 hk
+    · obtain ⟨sv, hsv, hch, _⟩ := hg.1.2.2.2.1 hk
       exact ⟨hg1, some (sv, false), ⟨fun c hc => ChOk.isScalar hsrc (hch c hc), fun hb => by cases hb⟩,
         by simp [mk_str, tokValOrEmpty, hsv, Exec.descAst, hk]⟩
-    · obtain ⟨sv, hsv, hch, hrep⟩ := hg.1.2.2.2.2 hk
+    · obtain ⟨sv, hsv, hch, hrep, _⟩ := hg.1.2.2.2.2 hk
       exact ⟨hg1, some (sv, true), ⟨fun c hc => ChOk.isScalar hsrc (hch c hc), fun _ => hrep⟩,
         by simp [mk_str, tokValOrEmpty, hsv, Exec.descAst, hk]⟩
   · cases h
